@@ -1097,6 +1097,10 @@ class PyCdlib:
                 new_record = dr.DirectoryRecord()
                 rr = new_record.parse(vd, data[offset:offset + lenbyte],
                                       dir_record)
+                # Remember where this record really is on the ISO; the order
+                # and packing we would give the children of this directory
+                # need not be the ones the ISO was mastered with.
+                new_record.orig_offset = dir_record.extent_location() * self.logical_block_size + offset
                 offset += lenbyte
 
                 # Read the Rock Ridge continuation area (if any) first; the
@@ -4742,15 +4746,12 @@ class PyCdlib:
             self._cdfp.write(b'\x00' * (-data_len % self.logical_block_size))
 
         # Finally write out the directory record entry.
-        # This is a little tricky because of what things mean.  First of all,
-        # child.extents_to_here represents the total number of extents up to
-        # this child in the parent.  Thus, to get the absolute extent offset,
-        # we start with the parent's extent location, add on the number of
-        # extents to here, and remove 1 (since our offset will be zero-based).
-        # Second, child.offset_to_here is the *last* byte that the child uses,
-        # so to get the start of it we subtract off the length of the child.
-        # Then we can multiply the extent location by the logical block size,
-        # add on the offset, and get to the absolute location in the file.
+        # We can't use record.extents_to_here and record.offset_to_here to
+        # find it, since those describe where the record would go if we laid
+        # out the parent directory ourselves (children sorted by identifier
+        # and packed tightly).  The tool that mastered this ISO may have
+        # ordered or packed the directory differently, so we use the location
+        # that the record was found at when the ISO was opened instead.
         first_joliet = True
         for record, is_pvd_unused in child.inode.linked_records:
             if isinstance(record, dr.DirectoryRecord):
@@ -4760,9 +4761,9 @@ class PyCdlib:
                     self.joliet_vd.add_to_space_size(length)
                 if record.parent is None:
                     raise pycdlibexception.PyCdlibInternalError('Modifying file with empty parent')
-                abs_extent_loc = record.parent.extent_location() + record.extents_to_here - 1
-                offset = record.offset_to_here - record.dr_len
-                abs_offset = abs_extent_loc * self.logical_block_size + offset
+                if record.orig_offset < 0:
+                    raise pycdlibexception.PyCdlibInternalError('Modifying file that was not read from the ISO')
+                abs_offset = record.orig_offset
             elif isinstance(record, udfmod.UDFFileEntry):
                 abs_offset = record.extent_location() * self.logical_block_size
             elif isinstance(record, eltorito.EltoritoEntry):
